@@ -88,7 +88,7 @@ func valText(v *AVal) string {
 			return strconv.Itoa(int(f))
 		}
 		return fmt.Sprint(v.V)
-	case "raw", "type", "kw":
+	case "raw", "type", "kw", "legref":
 		return fmt.Sprint(v.V)
 	case "tmplref":
 		return "\"p-${" + fmt.Sprint(v.V) + "}\""
